@@ -837,6 +837,59 @@ func c17(c *Ctx) {
 		r.Check("json-config:sites", nCfg >= 1, token.NoPos, fmt.Sprintf("%d jsoniter configurations in the backends", nCfg))
 	})
 
+	c.Rule("C17.R15", "graphite keeps a tag's value: asGraphiteTag turns only the FIRST ':' of a tag into '=' (the separator between name and value) - a value may contain further colons (addresses, times), which a replace-all would rewrite", 2, func(r *Rule) {
+		fn := w.Func("pkg/backends/graphite", "asGraphiteTag")
+		if fn == nil {
+			r.Unresolved("graphite.asGraphiteTag")
+			return
+		}
+		c.SawFunc(FuncName(fn))
+		nSep := 0
+		for _, cl := range callsIn(fn) {
+			cal := staticCallee(cl)
+			if cal == nil || cal.Pkg == nil || cal.Pkg.Pkg.Path() != "strings" {
+				continue
+			}
+			args := cl.Common().Args
+			isColon := func(i int) bool {
+				if i >= len(args) {
+					return false
+				}
+				sv, ok := constString(args[i])
+				return ok && sv == ":"
+			}
+			switch cal.Name() {
+			case "ReplaceAll":
+				if isColon(1) {
+					nSep++
+					r.Check("asGraphiteTag:first-colon-only", false, cl.Pos(), "every ':' of the tag is replaced")
+				}
+			case "Replace":
+				if isColon(1) {
+					nSep++
+					k, isK := constInt(args[3])
+					r.Check("asGraphiteTag:first-colon-only", isK && k == 1, cl.Pos(), "strings.Replace(tag, \":\", ..., n) with n == 1")
+				}
+			case "Cut", "Index", "IndexByte", "SplitN":
+				if isColon(1) {
+					nSep++
+					if cal.Name() == "SplitN" {
+						k, isK := constInt(args[2])
+						r.Check("asGraphiteTag:first-colon-only", isK && k == 2, cl.Pos(), "the tag is split at its first ':' only")
+					} else {
+						r.Check("asGraphiteTag:first-colon-only", true, cl.Pos(), "the tag is separated at its first ':'")
+					}
+				}
+			case "Split", "LastIndex", "LastIndexByte":
+				if isColon(1) {
+					nSep++
+					r.Check("asGraphiteTag:first-colon-only", false, cl.Pos(), "the tag is separated at another ':' than the first ("+cal.Name()+")")
+				}
+			}
+		}
+		r.Check("asGraphiteTag:separator-site", nSep >= 1, fn.Pos(), fmt.Sprintf("%d places that separate name and value at ':'", nSep))
+	})
+
 	c.Rule("C17.R10", "the statsd relay withholds exactly the server's own counters: a counter is skipped if and only if its name starts with \"statsd.\" (with the dot: statsdaemon.x, statsd_exporter.y are ordinary series)", 2, func(r *Rule) {
 		pm := w.Func("pkg/backends/statsdaemon", "(*Client).processMetrics")
 		if pm == nil {
